@@ -62,12 +62,15 @@ def gen_knap_r3(rng, fam, thorough=False):
         tiny = [rng.randint(1, 3) for _ in range(rng.randint(1, 2))]
         weights = [cap - sum(tiny) - rng.choice([0, 0, 1])] + tiny
         values = [rng.randint(20, 90)] + [rng.randint(1, 5) for _ in tiny]
+        if _cycle("knap-W-cols", [True, False]):
+            # the heavy item LAST: its update at w = capacity reads the lowest columns, which the light items must have filled
+            weights, values = weights[::-1], values[::-1]
         return _k("knap", "r3-W-cols", values=values, weights=weights, capacity=cap, minimize=False)
     if fam == "W-cells":
         cap = 10**6 if thorough else 400_000
         tiny = [rng.randint(1, 9) for _ in range(10)]
-        weights = tiny[:5] + [cap - sum(tiny), cap - rng.randint(0, 3)] + tiny[5:]
-        values = [rng.randint(1, 5) for _ in range(5)] + [rng.randint(20, 90), rng.randint(20, 90)] + [rng.randint(1, 5) for _ in range(5)]
+        weights = tiny[:5] + tiny[5:] + [cap - rng.randint(0, 3), cap - sum(tiny)]        # the item that completes the optimum comes last
+        values = [rng.randint(1, 5) for _ in range(10)] + [rng.randint(20, 60), rng.randint(61, 90)]
         return _k("knap", "r3-W-cells", values=values, weights=weights, capacity=cap, minimize=False)
     if fam == "W-selected":
         n = rng.choice([4200, 5000] + ([10**5] if thorough else []))
@@ -233,7 +236,7 @@ def gen_bin_r3(rng, fam, thorough=False):
 
 
 #            family, quick, thorough
-R3_KNAP = [("W-items", 3, 8), ("W-cols", 1, 3), ("W-cells", 1, 2), ("W-selected", 2, 6), ("W-fallback", 1, 2), ("A2", 60, 800),
+R3_KNAP = [("W-items", 3, 8), ("W-cols", 2, 4), ("W-cells", 1, 2), ("W-selected", 2, 6), ("W-fallback", 1, 2), ("A2", 60, 800),
            ("X-cancel", 6, 40), ("X-overflow", 6, 40), ("X-nonfinite", 10, 60), ("X-negzero", 24, 300), ("X-intfloat", 24, 300)]
 R3_BIN = [("W-items", 2, 6), ("W-bins", 1, 4), ("A2", 60, 800), ("X-big", 6, 40), ("X-nonfinite", 10, 60), ("X-negzero", 24, 300),
           ("X-intfloat", 24, 300)]
